@@ -23,8 +23,12 @@ EXTENDS Props, Json, IOUtils, TLCExt, FiniteSets
 JT == JsonDeserialize(IOEnv.TRACE_FILE)
 Traces == JT.traces
 
-VARIABLES tid, l, st, fails, unch, nchk
-tvars == <<tid, l, st, fails, unch, nchk>>
+VARIABLES tid, l, st, fails, unch, nchk,
+          kc,      \* number of raw candles consumed so far
+          ok15,    \* C15's look-back precondition has held at every append so far
+          trimmed, \* some candle has been trimmed away so far
+          notes    \* coverage notes (which conditional clauses actually applied)
+tvars == <<tid, l, st, fails, unch, nchk, kc, ok15, trimmed, notes>>
 
 \* --------------------------------------------------------------------------
 \* JSON -> spec values
@@ -45,6 +49,7 @@ ApplyDelta(pre, dl) ==
         ELSE base[i]]
 
 MCfg(m) == MkCfg(m.tf, m.fill, m.life, m.ha)
+RawCopies(cs) == [i \in 1..Len(cs) |-> [Reset(Recover(cs[i])) EXCEPT !.cl = <<>>]]
 
 \* --------------------------------------------------------------------------
 \* per-call expectations
@@ -57,11 +62,12 @@ MidOf(T, e, j) ==
   LET cfg == MCfg(T.mg[j])
   IN CASE e.op = "new" ->
             IF T.mg[j].src = 0 THEN MgrNew(RawSlice(T, 1, e.b), cfg)
-            ELSE \* a Hexital timeframe manager starts from a deep copy of the default
-                 \* manager's candles as they are after its own tasks
+            ELSE \* a Hexital timeframe manager starts from copies of the default manager's
+                 \* candles (after its own tasks) with raw values recovered, no tag, no readings
                  LET d == MgrNew(RawSlice(T, 1, e.b), MCfg(T.mg[T.mg[j].src]))
-                 IN IF ~d.ok THEN d ELSE MgrNew(d.cs, cfg)
+                 IN IF ~d.ok THEN d ELSE MgrNew(RawCopies(d.cs), cfg)
        [] e.op = "append" -> MgrAppend(st[j], RawSlice(T, e.a, e.b), cfg)
+       [] e.op = "collapse" -> MgrTasks(st[j], cfg)     \* another pass over the same list
        [] OTHER -> [ok |-> TRUE, err |-> "", cs |-> st[j]]
 
 \* first position at which two shell sequences differ (0 = none)
@@ -136,17 +142,51 @@ TwinFindings(tw, post) ==
                           i \in {i \in 1..n : \E q2 \in 1..Len(tw.names) :
                                     ~NameSame(a[i].ind, b[off + i].ind, tw.names[q2])} })
 
+\* definitional clause (C03 / C11 / C12 / C15 window): what the manager shows is the
+\* right-closed resampling (+ fill, + Heikin-Ashi, + window) of the raw stream consumed so far
+DefApplies(T, j) ==
+  LET m == T.mg[j]
+  IN /\ ~(m.fill /\ m.ha) /\ ~(m.ha /\ m.life >= 0)
+     /\ (m.src = 0 \/ (T.mg[m.src].tf = 0 /\ ~T.mg[m.src].ha /\ T.mg[m.src].life < 0))
+DefFindings(T, j, k, postj) ==
+  IF ~DefApplies(T, j) \/ k = 0 THEN {}
+  ELSE LET cfg == MCfg(T.mg[j])
+           raw == RawSlice(T, 1, k)
+       IN (IF CoreSeq(postj) = ShownDef(raw, cfg) THEN {<<"ok", j, "def", 0>>}
+           ELSE {<<"def_shown", j, "", Len(postj)>>})
+          \cup (IF cfg.ha /\ [i \in 1..Len(postj) |-> CleanCore(postj[i])] # CleanDef(raw, cfg)
+                THEN {<<"def_clean", j, "", Len(postj)>>} ELSE {})
+          \cup (IF cfg.ha /\ \E i \in 1..Len(postj) : postj[i].tag # HAName
+                THEN {<<"def_tag", j, "", Len(postj)>>} ELSE {})
+
+\* C15 look-back precondition at one append: once something has been trimmed, every candle
+\* whose readings are (re)computed must still have Warm(c) predecessors
+LookbackOK(T, e, post) ==
+  \A j \in 1..Len(T.mg) :
+     (T.mg[j].life >= 0 /\ (e.m[j].drop > 0 \/ trimmed)) =>
+        \A n \in {n \in 1..Len(T.ind) : T.ind[n].mg = j} :
+           \A q \in 1..Len(e.m[j].d) : e.m[j].d[q].i - 1 >= Warm(T.ind[n])
+
 StepFindings(T, e, post) ==
   UNION { LET mid == MidOf(T, e, j)
               sd  == IF mid.ok THEN FirstDiff(ShellSeq(mid.cs), ShellSeq(post[j])) ELSE -2
+              \* with a lifespan, readings are only specified while the look-back they need
+              \* has survived every trim (C15's precondition)
+              rd  == T.mg[j].life < 0 \/ (ok15 /\ LookbackOK(T, e, post))
           IN IF e.exc # "" THEN {<<"exc", j, e.exc, 0>>}
              ELSE IF ~mid.ok THEN {<<"stage_err", j, mid.err, 0>>}
              ELSE IF sd # 0 THEN {<<"stage", j, "", sd>>}
-             ELSE (IF e.op \in {"append", "calculate"}
-                   THEN CalcFindings(T, e, j, mid.cs, post[j]) ELSE {})
-                  \cup StateFindings(T, j, post[j])
+             ELSE (IF ~rd THEN {}
+                   ELSE (IF e.op \in {"append", "calculate"}
+                         THEN CalcFindings(T, e, j, mid.cs, post[j]) ELSE {})
+                        \cup StateFindings(T, j, post[j]))
+                  \cup DefFindings(T, j, IF e.op \in {"new", "append"} THEN e.b ELSE kc, post[j])
         : j \in 1..Len(T.mg) }
-  \cup UNION { TwinFindings(e.bt[q], post) : q \in 1..Len(e.bt) }
+  \cup UNION { IF e.bt[q].clause = "untrimmed" /\ ~(ok15 /\ LookbackOK(T, e, post))
+              THEN {<<"ok", e.bt[q].j, "untrimmed_skipped", 0>>}
+              ELSE TwinFindings(e.bt[q], post)
+                   \cup (IF e.bt[q].clause = "untrimmed" THEN {<<"ok", e.bt[q].j, "untrimmed_compared", 0>>} ELSE {})
+            : q \in 1..Len(e.bt) }
 
 \* the trace behaviour
 \* --------------------------------------------------------------------------
@@ -157,8 +197,13 @@ Init ==
   /\ fails = <<>>
   /\ unch = 0
   /\ nchk = 0
+  /\ kc = 0
+  /\ ok15 = TRUE
+  /\ trimmed = FALSE
+  /\ notes = <<>>
 
 MaxFails == 6
+NoteNames == {"untrimmed_skipped", "untrimmed_compared", "def"}
 \* TRACE_DEBUG=1 lists unchecked comparisons among the failures (diagnosis only)
 DebugUnch == "TRACE_DEBUG" \in DOMAIN IOEnv
 RECURSIVE SetAsSeq(_)
@@ -177,6 +222,15 @@ Step ==
         /\ unch' = unch + Cardinality({f \in fs : f[1] = "unchecked"})
         /\ nchk' = nchk + Cardinality({f \in fs : f[1] = "ok"})
         /\ st' = post
+        /\ kc' = IF e.op \in {"new", "append"} THEN e.b ELSE kc
+        /\ ok15' = (ok15 /\ (e.op \in {"append", "calculate"} => LookbackOK(T, e, post)))
+        /\ trimmed' = (trimmed \/ \E j \in 1..Len(T.mg) :
+                            \/ e.m[j].drop > 0
+                            \/ (e.op = "new" /\ T.mg[j].life >= 0 /\ DefApplies(T, j)
+                                /\ Len(post[j]) < Len(ShownDef(RawSlice(T, 1, e.b),
+                                                               [MCfg(T.mg[j]) EXCEPT !.life = -1])))
+                            \/ (e.op = "new" /\ T.mg[j].life >= 0 /\ ~DefApplies(T, j)))
+        /\ notes' = notes \o SetAsSeq({f[3] : f \in {g \in fs : g[1] = "ok" /\ g[4] = 0 /\ g[3] \in NoteNames}})
         /\ l' = l + 1
         /\ tid' = tid
 
@@ -187,5 +241,5 @@ Spec == Init /\ [][Next]_tvars
 Report ==
   (l > Len(Traces[tid].ev)) =>
      PrintT("RESULT " \o ToJson([tid |-> tid, id |-> Traces[tid].id, nf |-> Len(fails),
-                                 unch |-> unch, nchk |-> nchk, fails |-> fails]))
+                                 unch |-> unch, nchk |-> nchk, fails |-> fails, notes |-> notes]))
 =============================================================================
